@@ -1216,6 +1216,15 @@ struct Gen
 				double factor = r.pick(std::vector<double>{1.0, 1.0, 1.0001, 1.5, 2.0, 5.0, 20.0});
 				if(!for_law && r.chance(0.02))
 					factor = 60.0;
+				if(!for_law && kind == 4 && r.chance(0.10))
+				{
+					// a narrow peak under a correct envelope: efficiency 0.3-0.5 %, so that one call in twenty passes its 1000th
+					// rejection (the library's inefficiency-warning branch) and none its 10000th (where the library gives up)
+					s.family = 1;
+					a		 = r.range(0.2, 0.8);
+					b		 = r.logrange(0.0015, 0.004);
+					factor	 = std::max(1.0, 2.5066 * b / r.range(0.003, 0.005));
+				}
 				s.p = {a, b, off, off + w, factor};
 				if(r.chance(0.3))
 					s.p.push_back(std::pow(2.0, (double) r.irange(-100, 100)));	  // power of two: the scaled density compares exactly like the unscaled one
@@ -1227,6 +1236,13 @@ struct Gen
 				double a = r.range(0.2, 0.8), b = r.range(0.2, 0.6);
 				double off2 = r.chance(0.4) ? 0.0 : r.range(-100, 100), w2 = r.chance(0.4) ? 1.0 : r.logrange(1e-3, 1e3);
 				double factor = r.pick(std::vector<double>{1.0, 1.0001, 1.5, 2.0, 5.0});
+				if(!for_law && r.chance(0.15))
+				{
+					// as for kind 4: narrow peak (in x), correct envelope, efficiency 0.3-0.5 %
+					s.family = 1;
+					b		 = r.logrange(0.003, 0.008);
+					factor	 = std::max(1.0, 1.2533 * b / r.range(0.003, 0.005));
+				}
 				s.p = {a, b, off, off + w, off2, off2 + w2, factor};
 				break;
 			}
